@@ -67,6 +67,9 @@ func (rq *remoteQueue) first() remoteItem {
 func (rq *remoteQueue) retryLast() {
 	if rq.lastConsumed != nil {
 		rq.head = rq.lastConsumed
+		// the item is back in the queue: it must not also be released to the pool
+		// as "last consumed" when the next item is consumed
+		rq.lastConsumed = nil
 	}
 }
 
